@@ -23,7 +23,7 @@ RULE = ("valid sequential plans (random walks through the reference's applicable
         "generated multi-agent STRIPS and numeric domains with 2-4 agents (every action's first parameter is its "
         "agent; shared 0-ary and constant-argument atoms make interference possible), with and without the "
         "shared-object concurrency constraint, in both plan-file layouts ('(a x)' and '3: (a x)').  Non-trivial = the "
-        "result has a step with >= 2 members and another with exactly 1.  With the constraint on, members of a step "
+        "result has a step with >= 2 members and another with exactly 1; plus the 5 sequential plans the repository's converter tests use (constraint on / off, agent list as given / reversed) read by the reference parser.  With the constraint on, members of a step "
         "must not share an argument (the documented meaning of the switch).  Distinct by (domain, problem, plan, switch).")
 ASSUMPTIONS = ["plans whose reference execution is undefined at some step (conflicting effects, division by zero) are not generated",
                "non-interference is decided semantically: every order of a step's members is executable and all reach one state"]
@@ -79,9 +79,79 @@ def gen_walk(ch, dom, world, st, max_len):
     return plan, st
 
 
+T = "tests/multi_agent_tests/"
+DEPOT_AGENTS = ["depot0", "depot1", "depot2", "depot3", "distributor0", "distributor1", "distributor2", "distributor3",
+                "driver0", "driver1", "driver2", "driver3"]
+WOOD_AGENTS = ["glazer0", "grinder0", "highspeed-saw0", "immersion-varnisher0", "planer0", "saw0", "spray-varnisher0"]
+# the (domain, problem, sequential plan, agents) quadruples the repository's converter tests use
+SHIPPED = [(T + "sokoban_domain.pddl", T + "sokoban_problem.pddl", T + "sokoban_plan.txt", ["player-01", "player-02"]),
+           (T + "combined_domain.pddl", T + "combined_problem.pddl", T + "woodworking_plan.txt", WOOD_AGENTS),
+           (T + "depots_domain.pddl", T + "depots_problem.pddl", T + "depots_plan.txt", DEPOT_AGENTS),
+           (T + "blocks_socs_experiment/original_domain.pddl", T + "blocks_socs_experiment/original_problem_3.pddl",
+            T + "blocks_socs_experiment/sol.txt", ["a1", "a2", "a3"]),
+           (T + "satellite_numeric_multi_agent/metricSat.pddl", T + "satellite_numeric_multi_agent/pfile010.pddl",
+            T + "satellite_numeric_multi_agent/pfile010.solution", None)]
+
+
+def check_file(case, res):
+    """A shipped sequential plan: reference parser + interpreter judge what PlanConverter returns."""
+    import os
+    from pddl_plus_parser.lisp_parsers import DomainParser, ProblemParser
+    from pddl_plus_parser.multi_agent import PlanConverter
+    from pv.ref import parse as rparse
+    repo = os.environ.get("PV_REPO", "/repo")
+    dpath, ppath, plpath = (os.path.join(repo, case[k]) for k in ("domain_file", "problem_file", "plan_file"))
+    strict = bool(case["concurrency_constraint"])
+    res.key = json.dumps([case["plan_file"], strict, case.get("agents")])
+    try:
+        dom = rparse.parse_domain(open(dpath).read())
+        prob = rparse.parse_problem(open(ppath).read(), dom)
+        plan = rparse.read_plan(open(plpath).read())
+        world = pddl.World(dom, prob["objects"])
+        agents = case.get("agents") or sorted(o for o, t in prob["objects"] if t == case.get("agent_type", "satellite"))
+        st = prob["state"]
+        for s in plan:
+            if not pddl.applicable(dom, world, s, st):
+                res.skipped = "shipped-plan-not-valid-for-the-reference"
+                return res
+            st = pddl.apply(dom, world, s, st)
+    except (rparse.Unsupported, sexpr.Reject, OSError, KeyError, IndexError, pddl.Undefined, pddl.Ambiguous, pddl.Conflict, pddl.Invalid) as e:
+        res.skipped = f"reference-unsupported:{type(e).__name__}"
+        return res
+    if case.get("reverse_agents"):
+        agents = list(reversed(agents))
+
+    def run():
+        domain = DomainParser(Path(dpath), partial_parsing=False).parse_domain()
+        problem = ProblemParser(Path(ppath), domain).parse_problem()
+        return PlanConverter(domain).convert_plan(problem, Path(plpath), list(agents), strict)
+    okc, joint = lib_call(run)
+    info = {**case, "agents": agents}
+    if not okc:
+        res.bad(f"C15/file/convert/exception:{joint.key}", {**info, "error": repr(joint)})
+        return res
+    judge(res, info, dom, world, prob["state"], st, plan, agents, strict, joint)
+    res.classes = ["shipped-plan" + ("+strict" if strict else "+free")]
+    res.nontrivial = True
+    return res
+
+
+def chunk_cases(tier, chunk):
+    n = 0
+    for d, p, pl, agents in SHIPPED:
+        for strict in (True, False):
+            for rev in (False, True):
+                if n % chunk[1] == chunk[0]:
+                    yield {"kind": "file", "domain_file": d, "problem_file": p, "plan_file": pl, "agents": agents,
+                           "concurrency_constraint": strict, "reverse_agents": rev}
+                n += 1
+
+
 def check_case(case):
     from pddl_plus_parser.multi_agent import PlanConverter
     res = Res()
+    if case.get("kind") == "file":
+        return check_file(case, res)
     dom, objects, plan = case["dom"], case["objects"], case["plan"]
     pddl.validate_domain(dom, objects)
     world = pddl.validate_probes(dom, objects, [{"action": s[0], "args": s[1:], "state": case["init"]} for s in plan])
@@ -107,7 +177,7 @@ def check_case(case):
             if not pddl.applicable(dom, world, s, st):
                 raise pddl.Invalid("sequential plan is not valid")
             st = pddl.apply(dom, world, s, st)
-            if any(abs(v) > 10 ** 9 for v in st[1].values()):
+            if pddl.beyond_float(st):
                 res.skipped = "magnitude-beyond-float-precision"
                 return res
     except (pddl.Undefined, pddl.Ambiguous, pddl.Conflict):
@@ -132,6 +202,18 @@ def check_case(case):
     if not okc:
         res.bad(f"C15/convert/exception:{joint.key}", {**info, "error": repr(joint)})
         return res
+    return judge(res, info, dom, world, init, final, plan, agents, strict, joint)
+
+
+def executing_agent(m, agents):
+    """The converter's definition: the first agent name among the arguments."""
+    for x in m[1:]:
+        if x in agents:
+            return x
+    return None
+
+
+def judge(res, info, dom, world, init, final, plan, agents, strict, joint):
     steps = [[[a.name] + list(a.parameters) for a in j.actions] for j in joint]
     info["joint_plan"] = steps
     sizes = [sum(1 for m in s if m[0] != "nop") for s in steps]
@@ -143,7 +225,7 @@ def check_case(case):
             res.bad("C15/slots/count", {**info, "step": i})
             return res
         for ag, m in zip(agents, s):
-            if m[0] != "nop" and (len(m) < 2 or m[1] != ag):
+            if m[0] != "nop" and executing_agent(m, agents) != ag:
                 res.bad("C15/slots/wrong-agent-slot", {**info, "step": i, "slot_agent": ag, "entry": m})
                 return res
             if m[0] == "nop" and len(m) != 1:
@@ -171,7 +253,7 @@ def check_case(case):
         return res
     # (2) per-agent order
     for ag in agents:
-        if [m for m in flat if m[1] == ag] != [s for s in plan if s[1] == ag]:
+        if [m for m in flat if executing_agent(m, agents) == ag] != [[x.lower() for x in s] for s in plan if executing_agent([x.lower() for x in s], agents) == ag]:
             res.bad("C15/agent-order", {**info, "agent": ag})
             return res
     # (4)(5)(6)
@@ -222,6 +304,9 @@ def gen_retry(ch, tier):
 
 
 def plan(tier):
+    ex = {"exhaustive": [(i, 10) for i in range(10)], "exhaustive_is_complete": True,
+          "exhaustive_note": "the 5 sequential multi-agent plans the repository's converter tests use x constraint on/off x "
+                             "agent list as given / reversed, judged by the reference parser + interpreter"}
     if tier == "quick":
-        return {"streams": {"retry": 1600}, "shards": 16}
-    return {"streams": {"retry": 20000}, "shards": 16}
+        return {**ex, "streams": {"retry": 1600}, "shards": 16}
+    return {**ex, "streams": {"retry": 20000}, "shards": 16}
